@@ -214,6 +214,19 @@ fn main() {
             a0 += step;
         }
     }
+    // larger sectors with start angles outside [0, 360) on a half-degree grid (trig argument reduction)
+    {
+        let big: Vec<u32> = if th { vec![41, 61, 63, 100, 101, 127] } else { vec![41, 61, 101] };
+        for &d in &big {
+            let mut a = -720 * 2;
+            while a <= 720 * 2 {
+                if a < 0 || a >= 720 {
+                    run_case(&mut rec, &json!({"k":"sector","tl":[-7, 3],"d":d,"a0":a * 8,"sw":if a % 4 == 0 { 37 * 16 } else { -200 * 16 }}));
+                }
+                a += if th { 1 } else { 2 };
+            }
+        }
+    }
     let n_sec = if th { 30000 } else { 1500 };
     for _ in 0..n_sec {
         let d = rng.u32r(0, if th { 100 } else { 40 });
